@@ -63,6 +63,10 @@ def cells(tier, seed):
         out.append({"k": "dec", "lo": i, "hi": min(len(lad), i + 8)})
     out.append({"k": "datediff"})
     out.append({"k": "alias"})
+    from harness.common import SEQ_SET_OPS, SEQ_MAP_OPS
+    for kind, ops in (("set", SEQ_SET_OPS), ("map", SEQ_MAP_OPS)):
+        for first in range(len(ops)):
+            out.append({"k": "seq", "kind": kind, "first": first, "n": 3 if tier == "quick" else 4})
     return out
 
 
@@ -180,6 +184,30 @@ def run(ctx, cell):
                       {"x": repr(x), "text": text, "got": str(out.value)})
             res.append(text)
         return res
+    if k == "seq":
+        ctx.reach("order")
+        from harness.common import SEQ_SET_OPS, SEQ_MAP_OPS, seq_model
+        kind = cell["kind"]
+        allops = SEQ_SET_OPS if kind == "set" else SEQ_MAP_OPS
+        idx = [cell["first"]] + [ctx.choice("op%d" % i, len(allops)) for i in range(1, cell["n"])]
+        ops = [allops[i] for i in idx]
+        var = "s" if kind == "set" else "m"
+        init = "def s = <<1, 3, 4>>" if kind == "set" else "def m = <<<1 => 'x', 3 => 'y', 4 => 'z'>>>"
+        prog = init + "; " + "; ".join("do %s catch all NULL end" % o for o in ops) + "; [string(%s), %s]" % (var, var)
+        out = run_ckl(prog)
+        model = seq_model(kind, ops)
+        if kind == "set":
+            fresh = vset([vint(x) for x in model])
+        else:
+            fresh = vmap([(vint(a), vstr(b)) for a, b in model])
+        detail = {"program": prog, "got": ctx.plain(out), "expected": str(fresh)}
+        if out.kind != "ok":
+            ctx.fail("C08:seq:%s:%s" % (kind, out.kind), detail)
+            return out
+        text, val = out.value.value
+        ctx.check(val == fresh, "C08:seq:%s:value-differs-from-model" % kind, detail)
+        ctx.check(text.value == str(fresh), "C08:seq:%s:rendering-does-not-depend-only-on-the-value" % kind, detail)
+        return out
     if k == "alias":
         ctx.reach("order")
         pairs = [(vint(1), vdec(1.0)), (vint(0), vdec(0.0)), (vint(2 ** 53), vdec(float(2 ** 53))),
